@@ -117,7 +117,7 @@ static const int NSTAT = 256, MAXW = 64;
 static const uint32_t CH_CAP = 1u << 17;
 static const uint64_t BM_BITS = 1ull << 27;
 struct WorkerShm { volatile uint64_t cur, started, done_runs, viol, budget, nontrivial, steps; uint64_t counters[NSTAT]; };
-struct RunShm { uint64_t trace_hash; uint32_t nchoices; uint32_t choices[CH_CAP]; };
+struct RunShm { uint64_t trace_hash; uint32_t nchoices; char note[240]; uint32_t choices[CH_CAP]; };
 struct Shm {
     volatile int stop;
     WorkerShm w[MAXW];
@@ -136,7 +136,8 @@ void trace(uint64_t v) {
     else g_local_trace = mix64(g_local_trace, v);
 }
 uint64_t trace_value() { return g_shm ? g_shm->r[g_slot].trace_hash : g_local_trace; }
-static void trace_reset() { if (g_shm) { g_shm->r[g_slot].trace_hash = 0; g_shm->r[g_slot].nchoices = 0; } g_local_trace = 0; }
+static void trace_reset() { if (g_shm) { g_shm->r[g_slot].trace_hash = 0; g_shm->r[g_slot].nchoices = 0; g_shm->r[g_slot].note[0] = 0; } g_local_trace = 0; }
+void note(const char *s) { if (g_shm) { strncpy(g_shm->r[g_slot].note, s, 239); g_shm->r[g_slot].note[239] = 0; } }
 void stat_add(int idx, uint64_t n) {
     if (idx < 0 || idx >= NSTAT) return;
     if (g_shm && g_slot < MAXW) g_shm->w[g_slot].counters[idx] += n; else g_local_counters[idx] += n;
@@ -219,6 +220,7 @@ static Iso run_isolated(World &w, const std::string &prop, const Knobs &k, const
             if (f0 != std::string::npos && f3 != std::string::npos) out.detail += " | " + e.substr(f0, f3 - f0); }
     }
     if (out.detail.empty()) out.detail = out.cls;
+    if (g_shm->r[MAXW].note[0]) out.detail = std::string("[while: ") + g_shm->r[MAXW].note + "] " + out.detail;
     return out;
 }
 
